@@ -18,6 +18,7 @@ package xpkg
 
 import (
 	"compress/gzip"
+	"errors"
 	"io"
 )
 
@@ -73,9 +74,18 @@ func TeeReadCloser(r io.ReadCloser, w io.WriteCloser) io.ReadCloser {
 	}
 }
 
-// Read calls the underlying TeeReader Read method.
+// Read calls the underlying TeeReader Read method. If the underlying reader
+// fails, a writer that can be closed with an error (e.g. an io.PipeWriter) is
+// closed with that error: whoever consumes what was written then sees the
+// failure too, instead of a clean end of a stream that really was cut short.
 func (t *teeReadCloser) Read(b []byte) (int, error) {
-	return t.t.Read(b)
+	n, err := t.t.Read(b)
+	if err != nil && !errors.Is(err, io.EOF) {
+		if w, ok := t.w.(interface{ CloseWithError(err error) error }); ok {
+			_ = w.CloseWithError(err)
+		}
+	}
+	return n, err
 }
 
 // Close closes the underlying ReadCloser, then the Writer for the TeeReader.
